@@ -14,6 +14,7 @@ import (
 	"path/filepath"
 	"sort"
 	"sync/atomic"
+	"testing/synctest"
 	"time"
 
 	"github.com/google/certificate-transparency-go/client"
@@ -177,6 +178,25 @@ func (w *World) lockSetup() {
 	// log list re-read every 7 s of fake time; the periodic root refresh of a distributor never comes due
 	// again (schedule.Every runs it once, at once, for every new distributor)
 	w.proxy.Run(w.ctx, 7*time.Second, 100000*time.Hour)
+	// honest prologue: everything the proxy's start-up parks at is answered in canonical order until the
+	// first distributor is in place (the run proper then starts from an initialised proxy)
+	for i := 0; i < 3000; i++ {
+		synctest.Wait()
+		select {
+		case <-w.proxy.Init:
+			i = 1 << 30
+		default:
+		}
+		ps := s.ParkedCalls()
+		if len(ps) == 0 {
+			if i >= 1<<30 {
+				break
+			}
+			time.Sleep(time.Second)
+			continue
+		}
+		s.Release(ps[0], kernel.Decision{Kind: "ok"})
+	}
 	s.Logf("lock: proxy over %s, second list retires %q", filepath.Base(w.llPath), w.llRetired)
 }
 
@@ -243,11 +263,41 @@ func (w *World) sideOptions() []kernel.Option {
 		}})
 		break
 	}
+	if w.proxy != nil && w.active == 0 && w.opsActive == 0 && w.refreshing == 0 {
+		// with nothing else going on: change the list and let the proxy's own machinery (everything that descends
+		// from the driver) run to completion over two refresh periods, every seam answered honestly
+		opts = append(opts, kernel.Option{Key: "log list changes and settles", Weight: 4, Apply: func() {
+			w.llWhich = 1 - w.llWhich
+			w.llSince, w.llStolen = w.s.Now(), false
+			if err := os.WriteFile(w.llPath, w.llJSON[w.llWhich], 0o644); err != nil {
+				panic("harness: " + err.Error())
+			}
+			w.s.Fault("loglist.change")
+			for round := 0; round < 2; round++ {
+				time.Sleep(8 * time.Second)
+				for i := 0; i < 5000; i++ {
+					synctest.Wait()
+					var next *kernel.Parked
+					for _, p := range w.s.ParkedCalls() {
+						if kernel.RootOf(p.Party) == kernel.DriverName {
+							next = p
+							break
+						}
+					}
+					if next == nil {
+						break
+					}
+					w.s.Release(next, kernel.Decision{Kind: "ok"})
+				}
+			}
+			w.llSettled = true
+		}})
+	}
 	if w.proxy != nil {
 		opts = append(opts,
 			kernel.Option{Key: "log list changes", Weight: 2, Apply: func() {
 				w.llWhich = 1 - w.llWhich
-				w.llSince, w.llStolen = w.s.Now(), false
+				w.llSince, w.llStolen, w.llSettled = w.s.Now(), false, false
 				for _, c := range w.calls {
 					if c.Kind == "proxy" && !c.Checked {
 						c.ListMoved = true
@@ -296,7 +346,7 @@ func (w *World) harvestOps() {
 // has held that list for more than two refresh periods and nothing of the proxy's own machinery (the
 // goroutines descending from the driver) is being held at a seam by the driver; -1 = cannot be told.
 func (w *World) proxyList(parked []*kernel.Parked) int {
-	if w.proxy == nil || w.llStolen || w.s.Now()-w.llSince <= 15*time.Second {
+	if w.proxy == nil || w.llStolen || (!w.llSettled && w.s.Now()-w.llSince <= 15*time.Second) {
 		return -1
 	}
 	for _, p := range parked {
